@@ -281,12 +281,9 @@ def AVal.isNone {V : Type} (cv : Conv V) : AVal V → Bool
 def keyIsNone {V : Type} (cv : Conv V) (numId : Nat) (attrs : List (AVal V × Origin)) : Bool :=
   (attrs.take numId).all (fun a => a.1.isNone cv)
 
-/-- `anchor_cell = cells_list[0]; anchor_cell.parent.title; anchor_cell.coordinate`: the first
-attribute has to come from a cell of the row -/
-def anchorOk : List Src → Except Err Unit
-  | [] => .error .indexError
-  | .cell _ :: _ => .ok ()
-  | _ :: _ => .error .attributeError
+/- The anchor cell (`_src_ws_name`, `_anchor_cell_coord`, used by `__str__` and in the message of
+`ensure_equal` only) is the first entry of `cells_list` that is a cell, `"<n/a>"` if there is none:
+it never fails and does not influence what is modelled here. -/
 
 /-- `cls.construct(*cells_map.cells_from_row(row))` -/
 def construct {V : Type} (cv : Conv V) (numId : Nat) (rules : List (Rule V)) (slots : List Slot)
@@ -299,13 +296,10 @@ def construct {V : Type} (cv : Conv V) (numId : Nat) (rules : List (Rule V)) (sl
     | .ok ke =>
       if ke && decide (0 < numId) then .ok none
       else if rules.length < numId then .error .assertion
-      else match anchorOk srcs with
+      else match zipInit cv rules srcs with
         | .error e => .error e
-        | .ok _ =>
-          match zipInit cv rules srcs with
-          | .error e => .error e
-          | .ok attrs =>
-            if decide (0 < numId) && keyIsNone cv numId attrs then .ok none else .ok (some ⟨attrs⟩)
+        | .ok attrs =>
+          if decide (0 < numId) && keyIsNone cv numId attrs then .ok none else .ok (some ⟨attrs⟩)
 
 /-! ## the table (`XlsTableReader.iter_table`) -/
 
